@@ -123,6 +123,14 @@ class Ptr:
         return "Ptr(%r,null=%s)" % (self.target, self.null)
 
 
+class AnyPtr(Ptr):
+    """a pointer about which nothing is known (an unmodelled field): every comparison is unconstrained"""
+
+    def __init__(self, ctx, name):
+        Ptr.__init__(self, Obj("unknown", name), ctx.fresh(name + "_null", "bool"))
+        self.ctx = ctx
+
+
 class Pair:
     def __init__(self, first, second):
         self.first = first
@@ -1046,7 +1054,22 @@ class Interp:
         if isinstance(base, Loc):
             base = ctx.load(base)
         if hasattr(base, "member"):
-            return base.member(ctx, name, n)
+            r = base.member(ctx, name, n)
+            if isinstance(r, Loc) and not isinstance(r, ArrLoc) and r.key not in ctx.store and type(base).member is Obj.member:
+                # a field the contract does not model (e.g. newly added to the struct): any value at all
+                qt = type_of(n)
+                st = strip_type(qt)
+                if is_bool_type(qt):
+                    v = ctx.fresh("unmodelled_" + name, "bool")
+                elif is_int_type(qt) or is_time_type(qt):
+                    v = ctx.fresh("unmodelled_" + name)
+                elif st.endswith("*"):
+                    v = AnyPtr(ctx, "unmodelled_" + name)
+                else:
+                    raise Gap("read of unmodelled field %s of type %s (line %s)" % (name, qt, extract.line_of(n)))
+                ctx.store[r.key] = v
+                ctx.notes.append("unmodelled field %s.%s treated as arbitrary" % (getattr(base, "cls", "?"), name))
+            return r
         raise Gap("member %s of %r (line %s)" % (name, base, extract.line_of(n)))
 
     def e_ImplicitCastExpr(self, n):
@@ -1231,6 +1254,11 @@ class Interp:
     def ptr_eq(self, a, b):
         if not isinstance(a, Ptr) or not isinstance(b, Ptr):
             raise Gap("pointer comparison with non-pointer")
+        if isinstance(a, AnyPtr) or isinstance(b, AnyPtr):
+            other = b if isinstance(a, AnyPtr) else a
+            if other.target is None:
+                return (a if isinstance(a, AnyPtr) else b).null
+            return self.ctx.fresh("unknown_ptr_eq", "bool")
         if a.target is None:
             return b.null
         if b.target is None:
